@@ -211,6 +211,7 @@ pub fn apply_add(p: &mut Psbt, s: &Setup, op: &Op) -> Result<(), Failure> {
                 return Ok(());
             }
             let before = p.inputs[*i].clone();
+            check_plan_update(p, s, *i)?;
             match guard("update_input_with_descriptor", || p.update_input_with_descriptor(*i, &s.libs[*i]))? {
                 Ok(()) => {
                     check_update(p, s, *i)?;
@@ -261,6 +262,78 @@ pub fn apply_add(p: &mut Psbt, s: &Setup, op: &Op) -> Result<(), Failure> {
         _ => {}
     }
     Ok(())
+}
+
+/// (m) the other updater: descriptor -> into_plan -> Plan::update_psbt_input.  Worked on a copy
+/// of the PSBT: the scripts it records are the descriptor's, and with every signature and
+/// preimage added the plan completes from the PSBT into a valid spend.
+fn check_plan_update(p: &Psbt, s: &Setup, i: usize) -> Result<(), Failure> {
+    let d = &s.descs[i];
+    let kind = d.kind();
+    let plan = match guard("into_plan", || s.libs[i].clone().into_plan(&s.sats[i]))? {
+        Ok(pl) => pl,
+        Err(_) => return Ok(()),
+    };
+    let mut q = p.clone();
+    guard("update_psbt_input", || plan.update_psbt_input(&mut q.inputs[i]))?;
+    let sc = d.scripts().map_err(|e| Failure { sig: "mirror-encode".into(), msg: e })?;
+    {
+        let inp = &q.inputs[i];
+        let want_redeem = match d {
+            MDesc::Sh(_) | MDesc::ShWpkh(_) | MDesc::ShWsh(_) => sc.redeem.clone(),
+            _ => None,
+        };
+        if inp.redeem_script.as_ref().map(|x| x.as_bytes().to_vec()) != want_redeem {
+            return fail(&format!("plan-update-redeem-script/{}", kind), format!("Plan::update_psbt_input records redeem script {:?}, the descriptor's is {:?}", inp.redeem_script.as_ref().map(|x| x.to_hex_string()), want_redeem.as_ref().map(|x| keys::hex(x))));
+        }
+        let want_ws = match d {
+            MDesc::Wsh(_) | MDesc::ShWsh(_) => sc.witness_script.clone(),
+            _ => None,
+        };
+        if inp.witness_script.as_ref().map(|x| x.as_bytes().to_vec()) != want_ws {
+            return fail(&format!("plan-update-witness-script/{}", kind), "Plan::update_psbt_input records a witness script that is not the descriptor's".to_string());
+        }
+        if let MDesc::Tr(..) = d {
+            let spk = &s.prevouts[i].script_pubkey;
+            let mut qk = [0u8; 32];
+            if spk.len() == 34 {
+                qk.copy_from_slice(&spk.as_bytes()[2..]);
+            }
+            for (cb, (script, ver)) in inp.tap_scripts.iter() {
+                let lh = crate::bip341::tapleaf_hash(ver.to_consensus(), script.as_bytes());
+                if !crate::bip341::verify_commitment(&cb.serialize(), &qk, &lh) {
+                    return fail("plan-update-control-block", "Plan::update_psbt_input records a control block that does not prove its script against the spent output".to_string());
+                }
+            }
+        }
+    }
+    // everything the signers can add, then finalize this input
+    for k in 0..s.slots[i].len() {
+        apply_add(&mut q, s, &Op::AddSig(i, k))?;
+    }
+    apply_add(&mut q, s, &Op::AddPreimages(i))?;
+    // the plan completed from the PSBT's own contents spends the output ...
+    let done = guard("Plan::satisfy", || plan.satisfy(&miniscript::psbt::PsbtInputSatisfier::new(&q, i)))?;
+    match done {
+        Ok((wit, ssig)) => {
+            let mut f = q.clone();
+            f.inputs[i].final_script_sig = if ssig.is_empty() { None } else { Some(ssig) };
+            f.inputs[i].final_script_witness = if wit.is_empty() { None } else { Some(bitcoin::Witness::from_slice(&wit)) };
+            if let Err(e) = check_final_valid(&f, s, i) {
+                return fail(&format!("plan-updated-input-invalid/{}", kind), e.msg);
+            }
+        }
+        Err(e) => {
+            return fail(&format!("plan-not-completable-from-psbt/{}", kind), format!("input {} ({}): the plan made with these signatures / preimages cannot be completed from the PSBT that holds all of them: {:?}", i, d.print(true), e));
+        }
+    }
+    // ... and if the PSBT finalizer accepts the plan-updated input (it need not: the plan records
+    // only what signers need), the result is valid too
+    let secp = Secp256k1::verification_only();
+    match guard("finalize_inp", || q.finalize_inp_mut(&secp, i))? {
+        Ok(()) => check_final_valid(&q, s, i),
+        Err(_) => Ok(()),
+    }
 }
 
 /// (h) what an update must have recorded
@@ -790,7 +863,7 @@ fn run(s: &Setup, ops: &[Op], rep: &mut Report, classes: bool) -> Result<Psbt, F
 impl Check for C14 {
     fn id(&self) -> &'static str { "C14" }
     fn rule(&self) -> String {
-        "case = PSBT with 1-3 inputs, each spending an output of a random sane definite descriptor (hex and xpub keys with origins; witness_utxo / non_witness_utxo as the type requires), all signatures made for the actual unsigned transaction; history = up to 14 operations from {update_input_with_descriptor(i), add signature k of input i, add preimages(i), add unknown field(i), finalize_mut, finalize_mall_mut, finalize_inp_mut(i), finalize_inp_mall_mut(i), extract}; a twin history with the add-operations of every run shuffled. Invariants after every step: newly final inputs validate in the reference interpreter (standardness flags) inside the actual transaction and carry no signing data; final inputs never change; a finalize that does not finalize an input leaves it deep-equal; finalize twice == once; finalize(_mall)_mut returns Ok exactly when every input is final afterwards and finalize_inp(_mall)_mut(i) exactly when input i is (already-final inputs are skipped, never errors); finalize_inp(_mall)_mut(i) leaves input i exactly as finalize(_mall)_mut would; the finalizer agrees with the descriptor's own satisfier holding exactly the input's signatures / preimages in the same transaction: same verdict (for inputs that carry their scripts and key origins) and same witness per mode (for taproot: the stack of the leaf used equals that leaf's satisfaction in that mode); after update: sighash_msg(i, leaf?) is the digest the input's ECDSA / key-path / leaf signatures verify against; an input whose witness_utxo and non_witness_utxo disagree on the amount is refused by the updater untouched; update_output_with_descriptor records redeem / witness script, internal key and tap tree (leaf depths and scripts) of the descriptor and refuses an output that pays elsewhere without touching it; extract Ok => all inputs final and valid, transaction == unsigned tx + final fields, PSBT unchanged; after update: redeem/witness scripts, key origins (own BIP32), tap internal key / merkle root / control blocks / per-key leaf hashes equal the independent model; twin histories end in byte-identical PSBTs. Non-trivial = histories with a failing finalize followed by a successful one for the same input, or >= 2 finalize calls, or a reordered twin; distinct by (descriptors, history).".into()
+        "case = PSBT with 1-3 inputs, each spending an output of a random sane definite descriptor (hex and xpub keys with origins; witness_utxo / non_witness_utxo as the type requires), all signatures made for the actual unsigned transaction; history = up to 14 operations from {update_input_with_descriptor(i), add signature k of input i, add preimages(i), add unknown field(i), finalize_mut, finalize_mall_mut, finalize_inp_mut(i), finalize_inp_mall_mut(i), extract}; a twin history with the add-operations of every run shuffled. Invariants after every step: newly final inputs validate in the reference interpreter (standardness flags) inside the actual transaction and carry no signing data; final inputs never change; a finalize that does not finalize an input leaves it deep-equal; finalize twice == once; finalize(_mall)_mut returns Ok exactly when every input is final afterwards and finalize_inp(_mall)_mut(i) exactly when input i is (already-final inputs are skipped, never errors); finalize_inp(_mall)_mut(i) leaves input i exactly as finalize(_mall)_mut would; the finalizer agrees with the descriptor's own satisfier holding exactly the input's signatures / preimages in the same transaction: same verdict (for inputs that carry their scripts and key origins) and same witness per mode (for taproot: the stack of the leaf used equals that leaf's satisfaction in that mode); after update: sighash_msg(i, leaf?) is the digest the input's ECDSA / key-path / leaf signatures verify against; an input whose witness_utxo and non_witness_utxo disagree on the amount is refused by the updater untouched; update_output_with_descriptor records redeem / witness script, internal key and tap tree (leaf depths and scripts) of the descriptor and refuses an output that pays elsewhere without touching it; extract Ok => all inputs final and valid, transaction == unsigned tx + final fields, PSBT unchanged; the second updater (into_plan + Plan::update_psbt_input, on a copy) records the descriptor's redeem / witness script and control blocks that prove their leaf, and with all signatures and preimages added the plan completes from the PSBT into a valid spend (and so does the PSBT finalizer whenever it accepts that input); after update: redeem/witness scripts, key origins (own BIP32), tap internal key / merkle root / control blocks / per-key leaf hashes equal the independent model; twin histories end in byte-identical PSBTs. Non-trivial = histories with a failing finalize followed by a successful one for the same input, or >= 2 finalize calls, or a reordered twin; distinct by (descriptors, history).".into()
     }
     fn lanes(&self, tier: Tier) -> Vec<(&'static str, usize, usize)> {
         match tier {
